@@ -178,6 +178,8 @@ func main() {
 			Kind: "tso-stress", Trivial: false, Outcomes: outs})
 	}
 
+	lib.KBListHeaderStress(w, args, []string{lib.EngMem, lib.EngBadger})
+
 	lib.KBDrive(w, args, lib.KBProfile{Prop: "C02", Malformed: 15, ErrPct: 5, AbortPct: 3,
 		Quick: 220, QuickOther: 30, Thorough: 4000, Search: 1200, Exhaustive: false,
 		WrapCoq: func(coq string) string { return "(C2Sched " + coq + ")" }})
